@@ -3,8 +3,8 @@
    LabelJson.v (label sets), SeriesIndex.v (request histories), Dates.v (days and time zones). *)
 From Coq Require Import List ZArith Bool String Permutation.
 From Qryn Require Import model.GoQuote model.LabelJson model.Fingerprint model.Labels
-  model.SeriesIndex model.Dates model.CacheKey model.GoJson model.DdTags model.ProtoLabels model.SeriesDoc
-  proofs.FingerprintProofs proofs.FingerprintInjProofs proofs.LabelsProofs proofs.JsonQuoteProofs proofs.LabelDocReaderProofs proofs.ProtoLabelsProofs proofs.GoJsonProofs proofs.DdTagsProofs proofs.ProtoGuardProofs proofs.SeriesIndexProofs proofs.DiscoverProofs proofs.DiscoverWindowProofs proofs.DatesProofs proofs.CacheKeyProofs.
+  model.SeriesIndex model.FlushRule model.Dates model.CacheKey model.GoJson model.DdTags model.ProtoLabels model.SeriesDoc
+  proofs.FingerprintProofs proofs.FingerprintInjProofs proofs.LabelsProofs proofs.JsonQuoteProofs proofs.LabelDocReaderProofs proofs.ProtoLabelsProofs proofs.GoJsonProofs proofs.DdTagsProofs proofs.ProtoGuardProofs proofs.SeriesIndexProofs proofs.FlushRuleProofs proofs.DiscoverProofs proofs.DiscoverWindowProofs proofs.DatesProofs proofs.CacheKeyProofs.
 From Qryn Require model.Scans model.LogqlPlan model.SqlEval.
 Import ListNotations.
 Open Scope Z_scope.
@@ -287,6 +287,17 @@ Print Assumptions label_document_before_fix_exact.
 Theorem acked_sample_is_indexed : forall h, all_indexed_typed (run init h) = true.
 Proof. exact acked_indexed_typed_all. Qed.
 Print Assumptions acked_sample_is_indexed.
+
+(* The rule the code places the mid-request flushes with (model/FlushRule.v: len(message) + 26 per entry, 14 + len(labels text)
+   per announced row, a chunk is sent when the sum exceeds 1 MiB, the rest when the body ends; tied to the real parser on bodies
+   with lines of chosen lengths) is one of the behaviours the history theorems cover; on its own terms: for EVERY body and
+   every cache, each sample of the body has the series row of its day and type among the rows the body's chunks carry, or in
+   the cache it was parsed against. *)
+Theorem flush_rule_keeps_every_sample_covered : forall c zs fp d t,
+  In (fp, d, t) (flat_map snd (chunks_of c zs)) ->
+  In (d, fp, t) (flat_map fst (chunks_of c zs)) \/ In (d, fp, t) c.
+Proof. exact rule_body_covered. Qed.
+Print Assumptions flush_rule_keeps_every_sample_covered.
 
 (* ... and in cluster mode (the cache answers "not seen" and stores nothing: every push announces its series again) *)
 Theorem acked_sample_is_indexed_cluster_mode : forall h, all_indexed_typed (run_dist init h) = true.
